@@ -8,7 +8,7 @@ Property C16 — "Only real, non-excluded keyboards are selected, whichever way 
   name matches an --exclude glob is never selected for remapping, while every other keyboard-like
   device is.
 
-Model: `TmVerif.Model.Listing` (checked against the real code by harness suite `listing`).
+Model: `TmVerif.Model.Listing`, namespace `TmVerif.Listing` (checked against the real code by harness suite `listing`).
 
   C16_local / C16_local_lines   the answer for an entry depends on that entry only
   C16_agree                     the two textually duplicated extractors agree, for ALL texts
@@ -25,11 +25,9 @@ fields it does not set itself; the theorems say so by requiring every entry to b
 import TmVerif.Proofs.ListingSelect
 
 namespace TmVerif
+open TmVerif.Listing
 
 /-! ## C16_local: the answer for a device depends on its own entry only -/
-
-theorem extractInputDevices_nil : extractInputDevices [] = [] := by decide
-theorem extractKeyboards_nil : extractKeyboards [] = [] := by decide
 
 /-- Locality, text level.  `entries` are arbitrary texts, each of which begins with `I:` (nothing
 else is assumed: fields may be missing, repeated, in any order, blank lines anywhere, further `I:`
@@ -122,15 +120,6 @@ theorem C16_agree (text : List Char) :
 
 /-! ## C16_select: who is selected -/
 
-/-- "no pattern of `--exclude` matches the name" -/
-def NotExcluded (env : Env) (excludes : List (List Char)) (name : List Char) : Prop :=
-  ∀ pat ∈ excludes, env.glob pat name = false
-
-/-- The right-hand side of C16: keyboard-like by its own entry, not under the virtual-input tree,
-not excluded by name. -/
-def ShouldSelect (env : Env) (excludes : List (List Char)) (d : DevRec) : Prop :=
-  d.2.2 = true ∧ isVirtual d.1 = false ∧ NotExcluded env excludes d.2.1
-
 /-- Every node chosen by `--all-keyboards` belongs to a listed entry that should be selected.
 (No hypothesis.) -/
 theorem C16_selected_sound (env : Env) (text : List Char) (excludes : List (List Char))
@@ -166,27 +155,6 @@ theorem C16_select_all (env : Env) (text : List Char) (excludes : List (List Cha
     rw [← huniq d' hd' hs'.2.1 hr']
     exact hs'
   · exact C16_selected_complete env text excludes d p hd hres
-
-/-- The decision of `--dev-file` about one argument, spelled out. -/
-theorem mem_selectNamed_singleton (env : Env) (text : List Char) (excludes : List (List Char))
-    (skip : Bool) (arg c : List Char) (harg : env.canon arg = some c)
-    (hslash : containsSub strDoubleSlash c = false) :
-    arg ∈ selectNamed env text excludes skip [arg] ↔
-      ∃ v, lookupLast c (canonicalSet env text excludes) = some v ∧
-        (skip = true → v.1.2.2 = true) ∧ v.2 = false := by
-  simp only [selectNamed, List.mem_filter, List.mem_singleton, true_and, harg,
-    replaceDoubleSlash_of_no_double c hslash]
-  cases hl : lookupLast c (canonicalSet env text excludes) with
-  | none => simp
-  | some v =>
-    cases skip <;> cases hk : v.1.2.2 <;> cases he : v.2 <;> simp [hk, he]
-
-/-- Arguments are judged one by one. -/
-theorem mem_selectNamed (env : Env) (text : List Char) (excludes : List (List Char)) (skip : Bool)
-    (args : List (List Char)) (a : List Char) :
-    a ∈ selectNamed env text excludes skip args ↔
-      a ∈ args ∧ a ∈ selectNamed env text excludes skip [a] := by
-  simp [selectNamed, List.mem_filter]
 
 /-- Every argument accepted by `--dev-file` names (through `canonicalize`) the node of a listed,
 non-virtual, non-excluded entry, keyboard-like if `--only-if-keyboard`.  (No uniqueness hypothesis.) -/
@@ -279,21 +247,6 @@ theorem C16_select (env : Env) (text : List Char) (excludes : List (List Char))
   have h2 := C16_select_named env text excludes d p c arg hd hres hcanon harg hslash huniq
   exact ⟨h1, h2, h1.trans h2.symm⟩
 
-/-- The uniqueness hypothesis of `C16_select_named` in executable form (for concrete device lists). -/
-def uniqueCanonCheck (env : Env) (devs : List DevRec) (c : List Char) (d : DevRec) : Bool :=
-  devs.all fun d' =>
-    isVirtual d'.1 || match env.resolve d'.1 with
-      | none => true
-      | some p' => !(env.canon p' == some c) || d' == d
-
-theorem uniqueCanonCheck_sound (env : Env) (devs : List DevRec) (c : List Char) (d : DevRec)
-    (h : uniqueCanonCheck env devs c d = true) :
-    ∀ d' ∈ devs, isVirtual d'.1 = false →
-      ∀ p', env.resolve d'.1 = some p' → env.canon p' = some c → d' = d := by
-  intro d' hd' hv p' hr hc
-  have := List.all_eq_true.mp h d' hd'
-  simpa [hv, hr, hc] using this
-
 end TmVerif
 
 /-! ## A concrete device list: one real keyboard, one gaming mouse whose second interface has a
@@ -302,7 +255,7 @@ keyboard-like key map, and totalmapper's own (virtual) output device.
 Texts are written as explicit character lists because the kernel evaluates `"…".toList` very slowly;
 the doc comment above each definition shows the string. -/
 namespace TmVerif.C16Example
-open TmVerif
+open TmVerif TmVerif.Listing
 
 /-- `I: Bus=0011\nN: Name="AT keyboard"\nS: Sysfs=/devices/i8042/input2\nB: EV=120013\nB: KEY=fffffffffffffffe\n` -/
 def eKeyboard : List Char :=
